@@ -66,6 +66,7 @@ class Program:
     def __init__(self, facts_dir):
         self.dir = facts_dir
         self.crates = {}
+        self.synthetic = {}
         for fn in sorted(os.listdir(facts_dir)):
             if fn.endswith(".json") and not fn.startswith("_"):
                 c = Crate(os.path.join(facts_dir, fn))
@@ -76,7 +77,8 @@ class Program:
 
     def body(self, path):
         c = self.crates.get(path.split("::", 1)[0])
-        return c.bodies.get(path) if c else None
+        b = c.bodies.get(path) if c else None
+        return b if b is not None else self.synthetic.get(path)      # closures given a body of their own (k10.fnptr_bindings)
 
     def all_bodies(self, crates=("scale_typegen", "scale_typegen_description")):
         for cn in crates:
